@@ -102,6 +102,8 @@ func bytesKind(min, max uint64, core bool, thorough bool) kind {
 	if min > 0 {
 		k.vals = append(k.vals, val{v: pat(int(min - 1))})
 	}
+	// a nil slice is the empty vector: fine when the minimum is 0, refused otherwise
+	k.vals = append(k.vals, val{v: []byte(nil), valid: min == 0})
 	sortVals(k.vals)
 	return k
 }
@@ -148,10 +150,10 @@ func kinds(thorough bool) []kind {
 	u16 := &Shape{Kind: U16}
 	u24 := &Shape{Kind: U24}
 	ks = append(ks, kind{s: &Shape{Kind: Vec, Elem: u16, Min: 0, Max: 6},
-		vals: []val{{v: list(), valid: true}, {v: list(uint64(0x0102)), valid: true}, {v: list(uint64(1), uint64(0xffff), uint64(3)), valid: true},
+		vals: []val{{v: list(), valid: true}, {v: []any(nil), valid: true}, {v: list(uint64(0x0102)), valid: true}, {v: list(uint64(1), uint64(0xffff), uint64(3)), valid: true},
 			{v: list(uint64(1), uint64(2), uint64(3), uint64(4))}}})
 	ks = append(ks, kind{s: &Shape{Kind: Vec, Elem: u16, Min: 2, Max: 256},
-		vals: []val{{v: list(uint64(7)), valid: true}, {v: list(uint64(7), uint64(8)), valid: true}, {v: list()}}})
+		vals: []val{{v: list(uint64(7)), valid: true}, {v: list(uint64(7), uint64(8)), valid: true}, {v: list()}, {v: []any(nil)}}})
 	ks = append(ks, kind{s: &Shape{Kind: Vec, Elem: u24, Min: 0, Max: 9}, core: true,
 		vals: []val{{v: list(), valid: true}, {v: list(uint64(0x010203)), valid: true}, {v: list(uint64(0x010203), uint64(0xa0b0c0), uint64(0xffffff)), valid: true},
 			{v: list(uint64(1), uint64(2), uint64(3), uint64(4))}, {v: list(uint64(0x1000000))}}})
@@ -643,7 +645,10 @@ func (c *checker) decodeBoth(t *typ, gt reflect.Type, params string, top *Shape,
 	ptr := reflect.New(gt)
 	var rest []byte
 	var lerr error
-	pan, msg, stack := enum.Catch(func() { rest, lerr = tls.UnmarshalWithParams(data, ptr.Interface(), params) })
+	// the library decodes from a private buffer (with spare capacity) that the caller reuses afterwards
+	buf := make([]byte, len(data), len(data)+16)
+	copy(buf, data)
+	pan, msg, stack := enum.Catch(func() { rest, lerr = tls.UnmarshalWithParams(buf, ptr.Interface(), params) })
 	cd := func(lib, ref string) caseDesc {
 		return caseDesc{Type: top.String(), Params: params, Input: rep.Hex(data), Lib: lib, Ref: ref, Value: origin}
 	}
@@ -669,6 +674,17 @@ func (c *checker) decodeBoth(t *typ, gt reflect.Type, params string, top *Shape,
 	if len(rest) != len(data)-rn || !bytes.Equal(rest, data[rn:]) {
 		c.r.Violation(sigFor("unmarshal-rest-mismatch", top),
 			fmt.Sprintf("type %s input %s: library left %d bytes, reference %d", top, rep.Hex(data), len(rest), len(data)-rn), cd(rep.Hex(rest), rep.Hex(data[rn:])))
+		return
+	}
+	// the input buffer belongs to the caller: overwriting it (and the spare capacity behind it) after
+	// Unmarshal has returned must not change the decoded value
+	for i := range buf {
+		buf[i] ^= 0xff
+	}
+	buf = append(buf, 0xaa, 0xbb, 0xcc, 0xdd)
+	if lv2 := bind.FromGo(top, ptr.Elem()); !Equal(lv2, rv) {
+		c.r.Violation(sigFor("decoded-value-aliases-the-input-buffer", top),
+			fmt.Sprintf("type %s input %s: after the caller overwrote its input buffer the decoded value reads %s, it was %s", top, rep.Hex(data), Show(lv2), Show(rv)), cd(Show(lv2), Show(rv)))
 		return
 	}
 	// decoding must not depend on what the destination held before: decode the same input
